@@ -5,7 +5,9 @@
     wake-up and its resumption), purges, evictions, restarts, store faults. *)
 From Coq Require Import List Arith Bool ZArith Lia.
 From Pike Require Import Model.Sys Proofs.ListAux Proofs.SysInv Proofs.SysStep Proofs.SysTheorems Corr.SysCorr Corr.WakeCorr.
+From Coq Require Import NArith.
 From Pike Require Proofs.Lockset Proofs.Atomic Proofs.SysWake.
+From Pike Require Model.Dispatcher Model.Multi Proofs.DispatcherProofs Proofs.MultiProofs.
 Import ListNotations.
 
 (** In every reachable state, for every entry of the current process life: at
@@ -97,3 +99,40 @@ Theorem C01_one_section_sound : forall m l t r,
   Atomic.one_section m l = true -> Atomic.path_list l t r -> Atomic.count (Atomic.is_acq m) t <= 1 /\ Atomic.count (Atomic.is_rel m) t = 0.
 Proof. exact Atomic.one_section_sound. Qed.
 Print Assumptions C01_one_section_sound.
+
+(** ** the cache as a whole (Model/Multi.v): dispatcher + one protocol state
+    per key, eviction derived from the LRU instead of being an arbitrary
+    environment event.  In every reachable state of the composition, whatever
+    the key type, hash function, configured size and schedule over all keys,
+    every key satisfies the single-flight statement above. *)
+Theorem C01_single_flight_every_key :
+  forall (K : Type) (keqb : K -> K -> bool), (forall a b, keqb a b = true <-> a = b) ->
+  forall (hash : K -> N) (c : Pike.Model.Dispatcher.dconsts), Pike.Proofs.DispatcherProofs.consts_ok c ->
+  forall S t0 h st0 ls m, (0 <= t0)%Z ->
+    Pike.Model.Multi.mrun keqb hash (Pike.Model.Multi.minit (Pike.Model.Dispatcher.new_dispatcher c S) t0 h st0) ls = Some m ->
+  forall k e x, let s := Pike.Model.Multi.sys_of keqb m k in
+    base s <= e -> nth_error (gens s) e = Some x ->
+    count (owner_on e) (ts s) <= 1 /\ (count (owner_on e) (ts s) = 1 <-> st x = Fetching).
+Proof.
+  intros K keqb Hk hash c Hc S t0 h st0 ls m Ht H k e x s Hb Hx.
+  pose proof (Pike.Proofs.MultiProofs.minv_reachable keqb Hk hash _ _ t0 h st0 ls m
+                (Pike.Proofs.DispatcherProofs.zone_count_pos c S Hc) Ht H) as I.
+  exact (single_flight s e x (Pike.Proofs.MultiProofs.kreach_inv _ _ _ (Pike.Proofs.MultiProofs.mi_reach keqb hash m I k)) Hb Hx).
+Qed.
+Print Assumptions C01_single_flight_every_key.
+
+(** every key's component of a reachable composed state is a reachable state
+    of the per-key protocol: all per-key theorems of C01, C02, C04, C07, C10,
+    C18 transfer to the composition through this projection *)
+Theorem C01_composition_projects :
+  forall (K : Type) (keqb : K -> K -> bool), (forall a b, keqb a b = true <-> a = b) ->
+  forall (hash : K -> N) z lim t0 h st0 ls m, 0 < z -> (0 <= t0)%Z ->
+    Pike.Model.Multi.mrun keqb hash (Pike.Model.Multi.minit (Pike.Model.Dispatcher.mk_disp z lim) t0 h st0) ls = Some m ->
+  forall k, exists t1 lk, (0 <= t1)%Z /\ run (init t1 h st0 false) lk = Some (Pike.Model.Multi.sys_of keqb m k).
+Proof.
+  intros K keqb Hk hash z lim t0 h st0 ls m Hz Ht H k.
+  pose proof (Pike.Proofs.MultiProofs.minv_reachable keqb Hk hash z lim t0 h st0 ls m Hz Ht H) as I.
+  pose proof (Pike.Proofs.MultiProofs.mrun_hfp_store keqb hash ls _ _ H) as [Eh Es]. simpl in Eh, Es.
+  pose proof (Pike.Proofs.MultiProofs.mi_reach keqb hash m I k) as R. rewrite Eh, Es in R. exact R.
+Qed.
+Print Assumptions C01_composition_projects.
